@@ -10,7 +10,7 @@
     [acceptRanges] regenerated from utf8.go on every run (Algo.Gen.C19_Tables). *)
 Require Import NArith ZArith List Bool.
 Import ListNotations.
-From Algo.C19 Require Import Model Spec ProofsUtf8 ProofsBuffer ProofsStream.
+From Algo.C19 Require Import Model Spec ProofsUtf8 ProofsBuffer ProofsStream ProofsLexeme.
 Local Open Scope N_scope.
 
 (** The decoder driven by the regenerated tables accepts exactly the well-formed sequences of
@@ -66,6 +66,38 @@ Proof.
   apply stream_ill_formed; try assumption. right. exact Hne.
 Qed.
 
+(** Any interleaving of Next, Retract, Lexeme and Skip that keeps the pending lexeme within the
+    buffer size [n] (in bytes, after every call: [within]) behaves as the abstract reader [srun],
+    i.e. two rune indices (lexeme begin, forward) into the decoded source: Next returns the rune
+    under forward or io.EOF, Retract steps back (not beyond the lexeme begin), Lexeme returns the
+    bytes between the two indices and Skip drops them; both report the line and the column
+    (1-based, [lc_after]: a newline starts a new line) of what follows the runes before the
+    lexeme, i.e. of the first rune of the lexeme.  No call panics or hangs.  [proj] hides the
+    rune offset and the position inside an invalid-UTF-8 error, which the property does not
+    mention. *)
+Theorem C19_lexemes :
+  forall (n : nat) (ds : list decision) (d : decision) (rs : list N) (ops : list op),
+    (1 <= n)%nat -> rs <> [] -> Forall scalar rs -> Forall (fun c => c <> 0) rs ->
+    within n (mkSsrc rs false) (0%nat, 0%nat) ops = true ->
+    exists i0 vs i',
+      new n (mkReader (encode_all rs) ds d) = Ok (Some i0) /\
+      run i0 ops = Ok (vs, i') /\
+      map proj vs = fst (srun (mkSsrc rs false) (0%nat, 0%nat) ops).
+Proof. intros. apply lexemes_from_new; assumption. Qed.
+
+(** In the abstract reader the lexemes and the skipped spans, in order, concatenate to the
+    consumed prefix: the encoding of the runes before the final lexeme begin. *)
+Theorem C19_spans :
+  forall (rs : list N) (ops : list op),
+    let s := mkSsrc rs false in
+    concat (spans s (0%nat, 0%nat) ops) =
+    encode_all (firstn (fst (snd (srun s (0%nat, 0%nat) ops))) rs).
+Proof.
+  intros rs ops s. pose proof (spans_concat ops rs 0 0 (le_n 0)) as H. cbn zeta in H. fold s in H.
+  destruct (snd (srun s (0%nat, 0%nat) ops)) as [b' f']. destruct H as (_ & _ & H).
+  rewrite H. unfold sub. rewrite Nat.sub_0_r. reflexivity.
+Qed.
+
 Definition rd (src : list N) (ds : list decision) (d : decision) := mkReader src ds d.
 Definition one_byte := mkDec (AK 1) false.
 Definition full := mkDec AFull false.
@@ -112,6 +144,8 @@ Proof. exists [97; 195]. vm_compute. split; reflexivity. Qed.
 Print Assumptions utf8_tables_correct.
 Print Assumptions C19_stream.
 Print Assumptions C19_invalid.
+Print Assumptions C19_lexemes.
+Print Assumptions C19_spans.
 Print Assumptions C19_example.
 Print Assumptions C19_nul_refuted.
 Print Assumptions C19_truncated_refuted.
